@@ -22,9 +22,10 @@ impl Group for E2eGroup {
             l("e2e halfclose socks 1000"), l("e2e halfclose direct 10"), l("e2e targetclose socks 2000"),
             l("e2e refused socks"), l("e2e reuse 6"), l("e2e reaper"),
             l("e2e badpreamble bitflip"), l("e2e badpreamble random"), l("e2e badpreamble truncated"), l("e2e badpreamble good"),
+            l("e2e badpreamble good 1"), l("e2e badpreamble trimmed 1"), l("e2e badpreamble good 3"), l("e2e badpreamble trimmed 5"), l("e2e badpreamble lower 10"),
             l("e2e pushe2e"), l("e2e udp 1 100 1472 9000"), l("e2e early socks 300"),
             l("e2e slow up direct 6000000"), l("e2e slow down socks 6000000"), l("e2e slow up socks 3000000"),
-            l("e2e blackhole all"), l("e2e noname"),
+            l("e2e blackhole all"), l("e2e noname"), l("e2e certreload BxCtAmB"), l("e2e certreload xBEC"),
         ];
         all.into_iter().filter(|c| wanted(&c.lines[0])).collect()
     }
@@ -35,11 +36,11 @@ impl Group for E2eGroup {
             3 => format!("e2e halfclose {} {}", rng.pick(&["socks", "direct"]), rng.pick(&[0usize, 1, 5000, 200000])),
             4 => format!("e2e targetclose socks {}", rng.pick(&[0usize, 1, 5000, 200000])),
             5 => format!("e2e reuse {}", rng.range(2, 12)),
-            6 => format!("e2e badpreamble {}", rng.pick(&["bitflip", "random", "truncated", "good"])),
+            6 => format!("e2e badpreamble {} {}", rng.pick(&["bitflip", "random", "truncated", "good", "good", "trimmed", "lower"]), rng.below(crate::g_auth::PASSWORDS.len() as u64)),
             7 => format!("e2e udp {}", (0..rng.range(1, 5)).map(|_| rng.pick(&[1usize, 2, 100, 1472, 9000, 30000]).to_string()).collect::<Vec<_>>().join(" ")),
             8 => format!("e2e early socks {}", rng.pick(&[1usize, 300, 20000])),
             9 => format!("e2e slow {} {} {}", rng.pick(&["up", "down"]), rng.pick(&["socks", "http", "direct"]), rng.pick(&[1_000_000usize, 3_000_000, 6_000_000, 12_000_000])),
-            10 => format!("e2e blackhole {}", rng.pick(&["socks", "http", "direct"])),
+            10 => if rng.chance(1, 2) { format!("e2e blackhole {}", rng.pick(&["socks", "http", "direct"])) } else { format!("e2e certreload {}", (0..rng.range(1, 8)).map(|_| *rng.pick(&["A", "B", "C", "x", "t", "m", "E"])).collect::<String>()) },
             _ => "e2e refused socks".to_string(),
         };
         if !wanted(&line) {
@@ -51,13 +52,14 @@ impl Group for E2eGroup {
                 "halfclose" => format!("e2e halfclose {} {}", rng.pick(&["socks", "direct"]), rng.pick(&[0usize, 1, 5000, 200000])),
                 "targetclose" => format!("e2e targetclose socks {}", rng.pick(&[0usize, 1, 5000, 200000])),
                 "reuse" => format!("e2e reuse {}", rng.range(2, 12)),
-                "badpreamble" => format!("e2e badpreamble {}", rng.pick(&["bitflip", "random", "truncated", "good"])),
+                "badpreamble" => format!("e2e badpreamble {} {}", rng.pick(&["bitflip", "random", "truncated", "good", "good", "trimmed", "lower"]), rng.below(crate::g_auth::PASSWORDS.len() as u64)),
                 "udp" => format!("e2e udp {}", (0..rng.range(1, 5)).map(|_| rng.pick(&[1usize, 2, 100, 1472, 9000, 30000]).to_string()).collect::<Vec<_>>().join(" ")),
                 "early" => format!("e2e early socks {}", rng.pick(&[1usize, 300, 20000])),
                 "refused" => "e2e refused socks".to_string(),
                 "slow" => format!("e2e slow {} {} {}", rng.pick(&["up", "down"]), rng.pick(&["socks", "http", "direct"]), rng.pick(&[1_000_000usize, 3_000_000, 6_000_000, 12_000_000])),
                 "blackhole" => format!("e2e blackhole {}", rng.pick(&["socks", "http", "direct"])),
                 "noname" => "e2e noname".to_string(),
+                "certreload" => format!("e2e certreload {}", (0..rng.range(1, 8)).map(|_| *rng.pick(&["A", "B", "C", "x", "t", "m", "E"])).collect::<String>()),
                 "reaper" => "e2e reaper".to_string(),
                 _ => "e2e pushe2e".to_string(),
             };
@@ -111,9 +113,11 @@ async fn scenario(t: &[String]) -> Res {
         ["e2e", "slow", dir, via, n] => slow(dir, via, n.parse().map_err(|_| "n")?).await,
         ["e2e", "blackhole", via] => blackhole_open(via).await,
         ["e2e", "noname"] => noname().await,
+        ["e2e", "certreload", script] => certreload(script).await,
         ["e2e", "reuse", n] => reuse(n.parse().map_err(|_| "n")?).await,
         ["e2e", "reaper"] => reaper().await,
-        ["e2e", "badpreamble", kind] => badpreamble(kind).await,
+        ["e2e", "badpreamble", kind] => badpreamble(kind, 0).await,
+        ["e2e", "badpreamble", kind, pwi] => badpreamble(kind, pwi.parse().map_err(|_| "pwi")?).await,
         ["e2e", "pushe2e"] => pushe2e().await,
         ["e2e", "udp", sizes @ ..] => udp(&sizes.iter().filter_map(|x| x.parse().ok()).collect::<Vec<usize>>()).await,
         ["e2e", "early", "socks", n] => early(n.parse().map_err(|_| "n")?).await,
@@ -403,6 +407,94 @@ async fn noname() -> Res {
     Ok((format!("direct={o1} socks={o2}"), fails))
 }
 
+/// certificate hot-reload through a real listening server wired like the server binary
+/// (`Server::new_with_reloadable_tls` on the reloader's acceptor cell).  The server starts with pair A; each
+/// letter of the script is one step while the server sits idle in accept(): A|B|C = that valid pair is put on
+/// disk, x = the key file alone is replaced by another pair's key, t = the certificate file is truncated,
+/// m = the certificate file is removed, E = an expired pair; then reload(), then two handshakes at once.
+/// Every handshake must present the pair of the last successful reload; a session opened before the first
+/// step must still carry data after the last one.
+async fn certreload(script: &str) -> Res {
+    use anytls_rs::util::{CertReloader, CertReloaderConfig};
+    let pairs: Vec<crate::g_cert::Pair> = vec![crate::g_cert::make_pair("a", false), crate::g_cert::make_pair("b", false), crate::g_cert::make_pair("c", false), crate::g_cert::make_pair("e", true)];
+    let idx = |c: char| match c { 'A' => 0usize, 'B' => 1, 'C' => 2, _ => 3 };
+    let name_of = |der: &[u8]| -> String { pairs.iter().position(|p| p.cert_der == der).map(|i| ["A", "B", "C", "E"][i].to_string()).unwrap_or("?".into()) };
+    let dir = tempfile::TempDir::new().map_err(|e| e.to_string())?;
+    let (cp, kp) = (dir.path().join("cert.pem"), dir.path().join("key.pem"));
+    std::fs::write(&cp, &pairs[0].cert_pem).map_err(|e| e.to_string())?;
+    std::fs::write(&kp, &pairs[0].key_pem).map_err(|e| e.to_string())?;
+    let reloader = std::sync::Arc::new(CertReloader::new(CertReloaderConfig { cert_path: cp.clone(), key_path: kp.clone(), watch_enabled: false, debounce_ms: 500, check_expiry: true, expiry_warning_days: 30 }).map_err(|e| e.to_string())?);
+    let server = std::sync::Arc::new(anytls_rs::server::Server::new_with_reloadable_tls("pw", reloader.get_acceptor_ref(), anytls_rs::padding::PaddingFactory::default(), None));
+    let mut addr = None;
+    let mut task = None;
+    for _ in 0..5 {
+        let a: std::net::SocketAddr = format!("127.0.0.1:{}", free_port()).parse().unwrap();
+        let s2 = server.clone();
+        let t = tokio::spawn(async move { let _ = s2.listen(&a.to_string()).await; });
+        let mut up = false;
+        for _ in 0..100 { if t.is_finished() { break; } if tokio::net::TcpStream::connect(a).await.is_ok() { up = true; break; } tokio::time::sleep(Duration::from_millis(10)).await; }
+        if up { addr = Some(a); task = Some(t); break; }
+        t.abort();
+    }
+    let (Some(addr), Some(task)) = (addr, task) else { return Err("server did not start".into()) };
+    let served = || async {
+        let cfg = anytls_rs::util::tls::create_client_config().map_err(|e| e.to_string())?;
+        let connector = tokio_rustls::TlsConnector::from(cfg);
+        let tcp = tokio::net::TcpStream::connect(addr).await.map_err(|e| e.to_string())?;
+        let name = tokio_rustls::rustls::pki_types::ServerName::IpAddress(std::net::IpAddr::V4(std::net::Ipv4Addr::LOCALHOST).into());
+        let tls = tokio::time::timeout(Duration::from_secs(5), connector.connect(name, tcp)).await.map_err(|_| "handshake timed out".to_string())?.map_err(|e| format!("handshake failed: {e}"))?;
+        let der = tls.get_ref().1.peer_certificates().and_then(|v| v.first().map(|d| d.as_ref().to_vec())).unwrap_or_default();
+        Ok::<Vec<u8>, String>(der)
+    };
+    let mut fails = vec![];
+    let mut obs = vec![];
+    // a session (and a stream to an echo target) established before any reload
+    let target = Target::start("127.0.0.1", Mode::Echo).await;
+    let client = client_for(&addr.to_string(), pool_default(), anytls_rs::padding::PaddingFactory::default());
+    let (stream, session) = client.create_proxy_stream(("127.0.0.1".to_string(), target.addr.port())).await.map_err(|e| e.to_string())?;
+    let round = |tag: u8| { let (stream, session) = (stream.clone(), session.clone()); async move {
+        if session.write_data_frame(stream.id(), bytes::Bytes::from(vec![tag; 5])).await.is_err() { return false; }
+        let reader = stream.reader().clone();
+        let fut = async move { let mut g = reader.lock().await; let mut b = [0u8; 5]; g.read_exact(&mut b).await.map(|_| b) };
+        matches!(tokio::time::timeout(Duration::from_secs(5), fut).await, Ok(Ok(b)) if b == [tag; 5])
+    } };
+    if !round(1).await { return Err("echo before the first reload failed".into()); }
+    let mut active = 0usize;
+    let first = served().await?;
+    if first != pairs[0].cert_der { fails.push(fail("wrong_certificate_served/initial", format!("initial pair A configured, handshake presented {}", name_of(&first)))); }
+    for c in script.chars() {
+        // the previous handshakes are over: the listener is parked in accept() again
+        tokio::time::sleep(Duration::from_millis(40)).await;
+        let valid = match c {
+            'A' | 'B' | 'C' | 'E' => { let p = &pairs[idx(c)]; std::fs::write(&cp, &p.cert_pem).map_err(|e| e.to_string())?; std::fs::write(&kp, &p.key_pem).map_err(|e| e.to_string())?; c != 'E' }
+            'x' => { std::fs::write(&kp, &pairs[(active + 1) % 3].key_pem).map_err(|e| e.to_string())?; false }
+            't' => { let full = pairs[(active + 1) % 3].cert_pem.as_bytes().to_vec(); std::fs::write(&cp, &full[..full.len() / 2]).map_err(|e| e.to_string())?; false }
+            'm' => { let _ = std::fs::remove_file(&cp); false }
+            _ => return Err("bad script".into()),
+        };
+        let r = reloader.reload();
+        if r.is_ok() != valid {
+            fails.push(fail(if r.is_ok() { "invalid_pair_accepted/cert_reload" } else { "valid_pair_refused/cert_reload" }, format!("step {c}: reload returned {}", if r.is_ok() { "Ok" } else { "Err" })));
+        }
+        if r.is_ok() && valid { active = idx(c); }
+        let h1 = served().await?;
+        let h2 = served().await?;
+        let want = ["A", "B", "C", "E"][active];
+        for (k, h) in [(1, &h1), (2, &h2)] {
+            if *h != pairs[active].cert_der && r.is_ok() == valid {
+                fails.push(fail(&format!("wrong_certificate_served/handshake_{k}_after_reload"), format!("step {c}: the last successful reload installed pair {want}; handshake number {k} after the step was served with {}", name_of(h))));
+            }
+        }
+        obs.push(format!("{c}:{}:{}{}", if r.is_ok() { "ok" } else { "err" }, name_of(&h1), name_of(&h2)));
+    }
+    let alive = round(2).await;
+    if !alive { fails.push(fail("established_session_disturbed/cert_reload", format!("a session opened before the reloads `{script}` no longer carries data"))); }
+    drop(stream);
+    client.stop_session_pool_cleanup().await;
+    task.abort();
+    Ok((format!("{} session_alive={}", obs.join(" "), alive as u8), fails))
+}
+
 async fn reuse(n: usize) -> Res {
     let w = World::start(None, None, pool_default(), false).await?;
     let target = Target::start("127.0.0.1", Mode::Echo).await;
@@ -454,13 +546,29 @@ async fn reaper() -> Res {
     Ok((format!("rounds={ok_rounds} closed={}", closed as u8), fails))
 }
 
-async fn badpreamble(kind: &str) -> Res {
+/// a hand-made preamble against a real server configured with password number `pwi` of the auth group's list
+/// (surrounding whitespace, line ends, non-ASCII ...): kinds good | bitflip | random | truncated | trimmed
+/// (digest of the password without its trailing whitespace) | lower (digest of the lower-cased password)
+async fn badpreamble(kind: &str, pwi: usize) -> Res {
     use sha2::{Digest, Sha256};
-    let w = World::start(None, None, pool_default(), false).await?;
+    let pw = crate::g_auth::PASSWORDS[pwi % crate::g_auth::PASSWORDS.len()].to_string();
+    // (a server cannot be configured with an empty password through this scenario: empty means "the default")
+    let pw = if pw.is_empty() { "pw".to_string() } else { pw };
+    *WORLD_PW.lock().unwrap() = pw.clone();
+    let w = World::start(None, None, pool_default(), false).await;
+    WORLD_PW.lock().unwrap().clear();
+    let w = w?;
     let target = Target::start("127.0.0.1", Mode::Greeter).await;
     let mut fails = vec![];
-    let mut hash = { let mut h = Sha256::new(); h.update(b"pw"); h.finalize().to_vec() };
-    match kind { "bitflip" => hash[31] ^= 1, "random" => { hash = pattern(32, 9); } "truncated" => { hash.truncate(20); } _ => {} }
+    let sha = |p: &str| { let mut h = Sha256::new(); h.update(p.as_bytes()); h.finalize().to_vec() };
+    let mut hash = sha(&pw);
+    let kind = match kind {
+        // a relative that coincides with the password itself is the password
+        "trimmed" if pw.trim_end() == pw => "good",
+        "lower" if pw.to_lowercase() == pw => "good",
+        k => k,
+    };
+    match kind { "bitflip" => hash[31] ^= 1, "random" => { hash = pattern(32, 9); } "truncated" => { hash.truncate(20); } "trimmed" => { hash = sha(pw.trim_end()); } "lower" => { hash = sha(&pw.to_lowercase()); } _ => {} }
     let cfg = anytls_rs::util::tls::create_client_config().map_err(|e| e.to_string())?;
     let connector = tokio_rustls::TlsConnector::from(cfg);
     let tcp = tokio::net::TcpStream::connect(w.server_addr).await.map_err(|e| e.to_string())?;
